@@ -136,3 +136,16 @@ Theorem C07_order_refuted :
   map fst (written_before f9_png) = [[112; 72; 89; 115]; name_bKGD].
 Proof. exact written_order_refuted. Qed.
 Print Assumptions C07_order_refuted.
+
+(* the ICC decision (C14_decision_table) rewrites the side of the image data on which the first iCCP chunk stands, and only that
+   chunk: with C07_parsed_closed_form, C07_postprocess_each_side and C07_written_closed_form this makes the chunk sequence of the
+   output an explicit function of the chunk sequence of the input *)
+From OxiVerif Require Import Proofs.IccSplit.
+Theorem C07_icc_decision_each_side : forall pre m post d, cname_eqb (c_name m) name_IDAT = true ->
+  apply_icc_decision (pre ++ m :: post) d =
+  match chunk_position name_iCCP pre 0 with
+  | Some _ => apply_icc_decision pre d ++ m :: post
+  | None => pre ++ m :: apply_icc_decision post d
+  end.
+Proof. exact apply_icc_around_idat. Qed.
+Print Assumptions C07_icc_decision_each_side.
